@@ -3,7 +3,7 @@ import Driver.Proto
 namespace PyRates.Driver
 open Lean PyRates.Gamma
 
-/-- {"comp":"gamma","slots":[[d,s]..],"dde":k,"path":"scalar"|"matrix"} → {"orders":[n..],"rates":[a..],"groups":[{"order":n,"rate":a,"slots":[i..]}..]} -/
+/-- {"comp":"gamma","slots":[[d,s]..],"dde":k,"path":"scalar"|"matrix"} (,"dt":q,"adaptive":b) → {"kinds":[{"kind":"through|chain|ring|history",..}..], "orders":[n..],"rates":[a..],"groups":[{"order":n,"rate":a,"slots":[i..]}..]} -/
 def gammaCmd (j : Json) : Except String Json := do
   let slots ← (← (← field j "slots").getArr?).toList.mapM (fun x => do
     let a ← x.getArr?
@@ -15,7 +15,19 @@ def gammaCmd (j : Json) : Except String Json := do
   let keyed := (List.range slots.length).zip (orders.zip rates)
   -- `groupSlots` inserts from the back: feed the reversed list so that groups come out in first-occurrence order, slots ascending
   let groups := groupSlots keyed.reverse
-  return Json.mkObj [("orders", Json.arr (orders.map (fun (n : Nat) => Json.num (n : JsonNumber))).toArray), ("rates", Json.arr (rates.map jRat).toArray),
+  -- how each slot is realised by the scalar-edge code path (only when the step size is given)
+  let jKind : SlotKind → Json
+    | .through => Json.mkObj [("kind", "through")]
+    | .chain n a => Json.mkObj [("kind", "chain"), ("order", Json.num (n : JsonNumber)), ("rate", jRat a)]
+    | .ring m => Json.mkObj [("kind", "ring"), ("steps", Json.num (m : JsonNumber))]
+    | .history d => Json.mkObj [("kind", "history"), ("delay", jRat d)]
+  let kinds ← match fieldOpt j "dt" with
+    | some dtj => do
+        let dt ← getRat dtj
+        let adaptive := match fieldOpt j "adaptive" with | some (.bool b) => b | _ => false
+        pure (slots.map (fun (d, s) => jKind (slotKind adaptive dt d s k)))
+    | none => pure []
+  return Json.mkObj [("kinds", Json.arr kinds.toArray), ("orders", Json.arr (orders.map (fun (n : Nat) => Json.num (n : JsonNumber))).toArray), ("rates", Json.arr (rates.map jRat).toArray),
     ("groups", Json.arr (groups.map (fun g => Json.mkObj [("order", Json.num (g.1.1 : JsonNumber)), ("rate", jRat g.1.2), ("slots", Json.arr (g.2.map (fun (i : Nat) => Json.num (i : JsonNumber))).toArray)])).toArray)]
 
 end PyRates.Driver
